@@ -319,8 +319,23 @@ func judgeRaces(c *lib.Ctx, dir string, races []*race) error {
 	// vacuity guard: a recorded race with one falsified observation must be rejected
 	var corrupt *race
 	if c.Replay == "" {
+		// Only a race in which the falsified observation has no explanation under ANY placement of the
+		// unlogged steps is used: the world does not start with a live daemon (nobody holds the database
+		// lock initially) and exactly one daemon ever reaches the point where it opens the database, so
+		// its OpenDb finds the lock free in every behaviour of the specification. With a second daemon
+		// in the race the order of one daemon's CloseDb and the other's OpenDb is not fixed by the
+		// recorded hooks, and "db-failed" can be a behaviour of the specification as well.
 	search:
 		for _, r := range good {
+			listeners := map[int]bool{}
+			for _, e := range r.evs {
+				if e.Ev == "H" && (e.P == "daemon.listening" || e.P == "daemon.db-opened" || e.P == "daemon.db-failed") {
+					listeners[e.D] = true
+				}
+			}
+			if r.evs[0].P == "live" || len(listeners) != 1 {
+				continue
+			}
 			for i, e := range r.evs {
 				if e.Ev == "H" && e.P == "daemon.db-opened" {
 					corrupt = &race{evs: append([]event{}, r.evs...)}
